@@ -14,8 +14,8 @@ ITER_FAMILY = {'begin', 'last', 'next', 'prior', 'gte_key_byte', 'lte_key_byte'}
 # Role table: pre-conditions a callee may assume about its section / node parameters, by parameter name.
 # Confirmed by reading olc_art.hpp; verified at every (forwarder-resolved) call site (rule ROLE, LOCK-8 for the pushes).
 ROLES = {
-    'unodb::detail::olc_impl_helpers::add_or_choose_subtree': [('G', 'node_critical_section', ('n', 'inode')), ('G', 'parent_critical_section', ('o', 'node_in_parent'))],
-    'unodb::detail::olc_impl_helpers::remove_or_choose_subtree': [('G', 'node_critical_section', ('n', 'inode')), ('G', 'parent_critical_section', ('o', 'node_in_parent')), ('StE', 'child_critical_section')],
+    'unodb::detail::olc_impl_helpers::add_or_choose_subtree': [('G', 'node_critical_section', ('n', 'inode')), ('G', 'parent_critical_section', ('o', 'node_in_parent')), ('LF', 'inode', 'node_in_parent')],
+    'unodb::detail::olc_impl_helpers::remove_or_choose_subtree': [('G', 'node_critical_section', ('n', 'inode')), ('G', 'parent_critical_section', ('o', 'node_in_parent')), ('LF', 'inode', 'node_in_parent'), ('StE', 'child_critical_section')],
     'try_left_most_traversal': [('DirtyUnder', 'node', 'parent_critical_section')],
     'try_right_most_traversal': [('DirtyUnder', 'node', 'parent_critical_section')],
     'try_push_leaf': [('G', 'rcs', ('n', 'aleaf'))],
@@ -187,6 +187,15 @@ class FnFlow:
             return ('unk',)
         if k == 'call':
             return self._desc_call(e, W, depth)
+        if k == 'cond':
+            co, neg = f.strip_test(e['c'])
+            ce = f.resolve(co)
+            if isinstance(ce, dict):
+                for x in W.a:
+                    if x[0] == 'LastTest' and x[1] == id(ce):
+                        taken = x[2] != neg
+                        return self.desc(e['a'] if taken else e['b'], W, depth + 1)
+            return ('unk',)
         return ('unk',)
 
     def _is_root_member(self, e):
@@ -338,10 +347,17 @@ class FnFlow:
                 'node pointer `%s` is dereferenced (%s) but the read section it was read under (%s) has not been re-validated (check / try_read_unlock / upgrade) since the read: the pointer may be stale or torn'
                 % (self.nm(v), what, ', '.join(sorted({'`%s`' % self.nm(x[2]) if x[2] is not None else 'a section that is gone' for x in dirty}))) if dirty else None)
 
+    def failed(self, W, cs):
+        for x in list(W.a):
+            if x[0] in ('Holds0', 'HoldsG') and x[1] == cs:
+                W.a.add(('Failed0', x[2]))
+
     def validate(self, W, cs):
         for x in list(W.a):
             if (x[0] == 'Dirty' and x[2] == cs) or (x[0] == 'Read' and x[1] == cs):
                 W.a.discard(x)
+            elif x[0] in ('Holds0', 'HoldsG') and x[1] == cs:
+                W.a.add(('Val0', x[2]))
 
     # ------------------------------------------------------------------ assignment of a descriptor to a variable
     def assign(self, W, v, d, loc, decl_type=None):
@@ -589,6 +605,10 @@ class FnFlow:
             elif x[0] == 'Read' and x[1] == src:
                 W.a.discard(x)
                 W.a.add(('Read', g))
+        for x in list(W.a):
+            if x[0] == 'Holds0' and x[1] == src:
+                W.a.discard(x)
+                W.a.add(('HoldsG', g, x[2]))
         W.a = {x for x in W.a if not (x[0] in ('G', 'St') and x[1] == src)}
         W.set_st(src, 'M')
         if T is not None:
@@ -659,6 +679,10 @@ class FnFlow:
         self.ob('LOCK-1b', loc, 'return', not pend,
                 'a result is returned (not a restart) while data read under %s has not been validated by check() / try_read_unlock() / a successful upgrade: the result may be computed from a torn or stale read'
                 % ', '.join(sorted({('read section `%s`' % self.nm(c)) if c is not None else 'a read section that went out of scope' for c in pend})))
+        failed = W.sel('Failed0')
+        if failed and not (rc == ('bool', False)):
+            self.ob('LOCK-1b', loc, 'return-after-failed-validation', False,
+                    'a result other than restart/false is returned on a path on which the validation of a read section passed in by the caller has just failed')
         # LOCK-5(i): everything retired by this operation was obsoleted first
         for x in W.sel('Retired'):
             ok = any(W.canon(y[1]) & W.canon(x[1]) for y in W.sel('Obs')) or not W.canon(x[1])
@@ -1002,7 +1026,8 @@ class FnFlow:
                 if d[0] == 'var' and p['did'] not in summ['dirty_ok']:
                     self.deref_sink(W, d[1], loc, 'passed to %s()' % tg.short)
         outs = []
-        exits = [x for x in summ['exits'] if x[0][0] != 'restart']
+        # exits on which the callee saw a validation of a caller-owned section fail are restarts, whatever they return
+        exits = [x for x in summ['exits'] if x[0][0] != 'restart' and not any(a[0] == 'Failed0' for a in x[1])]
         if not exits:
             return [W]
         for rc, cw in exits:
@@ -1012,10 +1037,31 @@ class FnFlow:
                 if isinstance(v, tuple) and v and v[0] == 'rootslot':
                     continue
                 kk = self.vkind.get(v)
-                if kk in ('rcs',) or (isinstance(cv, tuple) and cv[0] == 'd'):
-                    # drop what the caller knew about the variable; MAY facts about it survive only if the callee keeps them
+                if kk == 'rcs' and ('Holds0', cv, ('P', cv)) in self.an.entry_atoms(tg):
+                    if ('Val0', ('P', cv)) in cw:
+                        w.a = {x for x in w.a if not ((x[0] == 'Dirty' and x[2] == v) or (x[0] == 'Read' and x[1] == v))}
+                    if ('Holds0', cv, ('P', cv)) in cw:
+                        # the parameter still holds the section it held on entry: its lock binding is unchanged
+                        w.a = {x for x in w.a if not (x[0] == 'St' and x[1] == v)}
+                        stc = [x for x in cw if x[0] == 'St' and x[1] == cv]
+                        if stc and stc[0][2] != 'O':
+                            w.a = {x for x in w.a if not (x[0] == 'G' and x[1] == v)}
+                    else:
+                        # the section was consumed (upgraded) or replaced inside the callee
+                        for x in list(w.a):
+                            if x[0] == 'Dirty' and x[2] == v:
+                                w.a.discard(x)
+                                w.a.add(('Dirty', x[1], None))
+                            elif x[0] == 'Read' and x[1] == v:
+                                w.a.discard(x)
+                                w.a.add(('Read', None))
+                        w.a = {x for x in w.a if not (x[0] in ('St', 'G') and x[1] == v)}
+                elif kk in ('rcs',) or (isinstance(cv, tuple) and cv[0] == 'd'):
+                    # drop what the caller knew about the variable
                     w.a = {x for x in w.a if not (w.mentions(x, v) and x[0] in ('St', 'G', 'Dirty', 'Read', 'Null', 'NonNull', 'LF', 'LFN', 'LFR', 'SlotIn', 'SlotIdx', 'SlotRoot', 'BT', 'BF', 'Same'))}
             for x in cw:
+                if x[0] in ('Holds0', 'Val0', 'Failed0', 'HoldsG'):
+                    continue
                 y = self.rename_atom(x, bind)
                 if y is not None:
                     w.a.add(y)
@@ -1088,6 +1134,20 @@ class FnFlow:
             self.ob(rule, loc, 'role:%s:%s' % (tg.short, role[1]), ok,
                     ('the stack entry pushed here records the version of read section `%s`, which is not the section opened on the node being pushed (%s): a later rehydrate/check would validate against the wrong lock word' if rule == 'LOCK-8' else
                      'argument `%s` passed for section parameter `' + role[1] + '` of %s() is not the read section opened on %s: the callee would validate / upgrade the wrong lock') % ((self.nm(cs), self.tname(T)) if rule == 'LOCK-8' else (self.nm(cs), tg.short, self.tname(T))))
+        elif role[0] == 'LF':
+            c = cvar(role[1])
+            sv = cvar(role[2])
+            if c is None or sv is None:
+                return
+            ok = False
+            ccls = W.same_class(c)
+            if isinstance(sv, tuple) and sv and sv[0] == 'rootslot':
+                ok = any(x[1] in ccls for x in W.sel('LFR'))
+            else:
+                scls = W.same_class(sv)
+                ok = any(x[1] in ccls and x[2] in scls for x in W.sel('LF')) or (any(W.has('SlotRoot', s_) for s_ in scls) and any(x[1] in ccls for x in W.sel('LFR')))
+            self.ob('ROLE', loc, 'role:%s:%s' % (tg.short, role[1] + '-in-' + role[2]), ok,
+                    'node `%s` passed to %s() is not known to be the node stored in the slot passed for `%s`: the callee replaces the content of that slot' % (self.nm(c), tg.short, role[2]))
         elif role[0] == 'GIR':
             cs = cvar(role[1])
             ev = cvar(role[2]) if role[2] in pn else None
@@ -1121,6 +1181,9 @@ class FnFlow:
                 cs = od[1]
                 W = W.copy()
                 st = W.st(cs)
+                if nm in ('check', 'try_read_unlock'):
+                    W.a = {x for x in W.a if not (x[0] == 'LastTest' and x[1] == id(e))}
+                    W.add('LastTest', id(e), val)
                 if nm == 'must_restart':
                     if st == 'O' and val:
                         return None
@@ -1135,9 +1198,12 @@ class FnFlow:
                         W.set_st(cs, 'O')
                     else:
                         W.set_st(cs, 'X')
+                        self.failed(W, cs)
                 elif nm == 'try_read_unlock':
                     if val:
                         self.validate(W, cs)
+                    else:
+                        self.failed(W, cs)
                     W.set_st(cs, 'X')
                     W.a = {x for x in W.a if not (x[0] == 'G' and x[1] == cs)}
                 return W
@@ -1148,6 +1214,7 @@ class FnFlow:
                     W = W.copy()
                     W.a.discard(('Untested', g))
                     if val:
+                        self.failed(W, g)
                         W.a = {x for x in W.a if not (x[0] in ('W', 'Act') and x[1] == g)}
                         # failed upgrade: reads stay unvalidated but the function is about to restart
                     else:
@@ -1210,7 +1277,10 @@ class FnFlow:
             v = ('d', p['did']) if deref else p['did']
             if k == 'rcs':
                 W.set_st(v, 'O')
+                W.add('Holds0', v, ('P', v))
         for role in self.an.roles_for(f):
+            if role[0] == 'LF' and role[1] in pn and role[2] in pn:
+                W.add('LF', pn[role[1]]['did'], pn[role[2]]['did'])
             if role[0] == 'G' and role[1] in pn and role[2][1] in pn:
                 k, deref = kind_of(pn[role[1]]['t'])
                 cs = ('d', pn[role[1]]['did']) if deref else pn[role[1]]['did']
